@@ -566,11 +566,14 @@ class FileHashStore(HashStore):
                     )
                     self.fhs_logger.debug("Attempting to tag object for pid: %s", pid)
                     cid = object_metadata.cid
-                    self.tag_object(pid, cid)
-                    if not self._exists("objects", cid):
-                        # The object was deleted between storing and tagging (a concurrent
-                        # delete of its last reference). It is tagged now, store it again.
-                        self._store_and_validate_data(pid, data)
+                    try:
+                        self.tag_object(pid, cid)
+                    finally:
+                        if not self._exists("objects", cid):
+                            # The object was deleted between storing and tagging (a concurrent
+                            # delete of its last reference). Store it again, also when tagging
+                            # was rejected: a rejected store_object leaves the object stored.
+                            self._store_and_validate_data(pid, data)
                     self.fhs_logger.info("Successfully stored object for pid: %s", pid)
                 finally:
                     # Release pid
